@@ -11,14 +11,21 @@
    name, the entry is what a definition of the property as it now is creates - name, kind,
    group, label, state, the enabled elements with labels and wire values - absent when the
    property is not exposed, and there are no other entries.
-   PARTIAL in one respect: that a connected client receives exactly the published stream
-   (routing C04/C05, framing C02, codec C03, ordering C19) is composed in the system model and
-   validated by the system-level correspondence, not proved as one theorem.
+   In the composed system model (System/Deliver.v): what a driver publishes in one operation
+   reaches the connected network client exactly (each message once, per connection in order,
+   after the wire), and for every operation that publishes no BLOB update the client's mirror
+   stays the normalisation (empty text = absent text, as the wire makes it) of a mirror in
+   sync with the device (the_connected_client_stays_in_sync).
+   PARTIAL: operations that publish BLOB updates reach the client over two connections whose
+   relative order is not determined; for them, and for the handshake of the network client
+   (registration, the client's own enableBLOB messages), the composition is validated by the
+   system-level correspondence, not proved.  That the system model is the real stack (router,
+   serializer, fragmented byte stream, framing) is the correspondence itself.
    REFUTED for BLOB payloads (the comparison leaves them out): a definition carries no
    payload (known finding K2). *)
 From Coq Require Import List NArith Bool String.
 Import ListNotations.
-From Indi Require Import Base.Sx Msg.Equality Driver.Model Driver.Props Client.Model Client.Props Client.Update System.Model System.Converge System.Ops System.Deliver.
+From Indi Require Import Base.Sx Msg.Equality Driver.Model Driver.Props Client.Model Client.Props Client.Update Client.Norm System.Model System.Converge System.Ops System.Deliver.
 
 Theorem a_definition_brings_the_entry_in_sync mi d g v :
   vec_on g v = true ->
@@ -125,6 +132,30 @@ Theorem what_a_driver_publishes_is_delivered s c dn e d o :
     cl_mirror c' = feed (cl_mirror c) (delivered_stream (pubs (snd (step d o)))) /\
     cl_in_ctl c' = [] /\ cl_in_blob c' = [] /\
     find_dev (sstep s (SDrv e o)) e = Some (fst (step d o)) /\
-    sy_r (sstep s (SDrv e o)) = sy_r s.
+    sy_r (sstep s (SDrv e o)) = sy_r s /\
+    cl_net c' = cl_net c /\ cl_ctl c' = cl_ctl c /\ cl_blob c' = cl_blob c.
 Proof. exact (driver_operation_is_delivered s c dn e d o). Qed.
 Print Assumptions what_a_driver_publishes_is_delivered.
+
+(* the composed system model: through every operation that publishes no BLOB update, the connected network
+   client's mirror stays the normalisation of a mirror in sync with the device, the client's inboxes are
+   empty again and the connection state is unchanged *)
+Theorem the_connected_client_stays_in_sync s c e d o :
+  one_client s c (d_name d) -> cl_in_ctl c = [] -> cl_in_blob c = [] ->
+  find_dev s e = Some d -> e <> cl_ctl c -> e <> cl_blob c ->
+  dev_ok d -> op_typed d o -> net_synced (cl_mirror c) d ->
+  Forall (fun m => is_blob_msg m = false) (pubs (snd (step d o))) ->
+  exists c',
+    sy_cls (sstep s (SDrv e o)) = [c'] /\
+    net_synced (cl_mirror c') (fst (step d o)) /\ dev_ok (fst (step d o)) /\
+    find_dev (sstep s (SDrv e o)) e = Some (fst (step d o)) /\
+    one_client (sstep s (SDrv e o)) c' (d_name (fst (step d o))) /\ cl_in_ctl c' = [] /\ cl_in_blob c' = [].
+Proof. exact (network_client_stays_in_sync s c e d o). Qed.
+Print Assumptions the_connected_client_stays_in_sync.
+
+(* processing the stream after the wire = normalising the result of processing the raw stream *)
+Theorem processing_commutes_with_the_wire ms mi :
+  fold_left (fun mi m => mirror_of (apply mi m)) (map Msg.Codec.norm_msg ms) (nm mi) =
+  nm (fold_left (fun mi m => mirror_of (apply mi m)) ms mi).
+Proof. exact (feed_norm ms mi). Qed.
+Print Assumptions processing_commutes_with_the_wire.
